@@ -515,7 +515,7 @@ pub fn run(ctx: &Ctx) -> i32 {
     run_cases(ctx, &mut rep, "snapshots", ctx.cases(100_000, 3_000_000), case_snapshots);
     // the real daemon (std RwLock, one task per port, BMCA and observer running) under concurrent load
     let workers = (ctx.threads as u64 / 2).clamp(2, 8);
-    let sum = crate::daemon::run_part(ctx, &mut rep, ctx.cases(6 * workers, 150 * workers), workers);
+    let sum = crate::daemon::run_part(ctx, &mut rep, ctx.cases(6 * workers, 60 * workers), workers);
     if let Some(why) = &sum.skipped {
         println!("note: end-to-end daemon part skipped ({}); the other parts are unaffected", why);
     }
